@@ -115,6 +115,20 @@ def gen_history(rng):
             a.append(use); b.append(use); kinds.append("failuse:true|Cannot call a finished fiber.")
             a.append(PROBE); b.append(PROBE); kinds.append("probe")
         elif k < 8 and rng.chance(1, 6):
+            # a fiber kept in a global was WAITING for another fiber when that one failed: the abandoned run must stay abandoned - a later
+            # snippet can neither resume the waiting fiber in the middle of its body nor see it finished
+            depth = 1 + rng.below(2)
+            how = rng.choice(['throw "inner failed";', "var z = nil + 1;", "undefined_name_%d;" % uid, "fn r(n) { return r(n + 1); } r(0);"])
+            body = "{ %s }" % how
+            for lvl in range(depth):
+                body = ('{ var in%d = Fiber.new(|| %s); try { in%d.call(); } finally { print("cleanup %d"); } print("resumed %d"); return "done %d"; }'
+                        % (lvl, body, lvl, lvl, lvl, lvl))
+            f = 'var wait%d = Fiber.new(|| %s);\nprint("ready");\nwait%d.call();\n' % (uid, body, uid)
+            a.append(f); b.append('var wait%d = Fiber.new(|| 1);\nprint("ready");\n' % uid); kinds.append("fail-waiting-fiber")
+            use = ('print(wait%d.has_finished()); try { print(wait%d.call()); } catch e { print(e.context); }\nprint(wait%d.has_finished());\n' % (uid, uid, uid))
+            a.append(use); b.append(use); kinds.append("failuse:false|Cannot call a fiber that has already been called.|false")
+            a.append(PROBE); b.append(PROBE); kinds.append("probe")
+        elif k < 8 and rng.chance(1, 6):
             # an assignment to a global that was never declared fails and must not define it
             where = rng.choice(["counter%d = 10;" % uid, "fn setup%d() { counter%d = 10; return 1; }\nprint(setup%d());" % (uid, uid, uid),
                                 "counter%d += 1;" % uid, "var t%d = [counter%d = 3];" % (uid, uid)])
